@@ -26,10 +26,14 @@ type SpecScope struct {
 	bound   map[string]bool
 	ghostOverride map[string]string
 	iter    *State // state at the head of the current loop iteration (iter_old)
+	ghostCur *State // ghost functions keep their current version inside old(...)
 }
 
 func (sc *SpecScope) ghostSym(name string) string {
 	st := sc.cur
+	if sc.ghostCur != nil {
+		st = sc.ghostCur
+	}
 	if st == nil {
 		st = sc.c.entry
 	}
@@ -376,6 +380,9 @@ func (sc *SpecScope) call(x *ast.CallExpr) Val {
 		}
 		n := *sc
 		n.cur = sc.old
+		if n.ghostCur == nil {
+			n.ghostCur = sc.cur
+		}
 		n.vars = map[string]Val{}
 		for k, v := range sc.vars {
 			n.vars[k] = v
@@ -581,6 +588,10 @@ func (sc *SpecScope) call(x *ast.CallExpr) Val {
 				}
 				static = true
 			}
+			if v.Inner != nil && sf.Body == nil && !sc.pure {
+				// uninterpreted function of an interface value: box for real
+				v = c.box(*v.Inner, v.T)
+			}
 			argVals = append(argVals, v)
 			for _, s := range v.flat() {
 				args = append(args, s.S)
@@ -609,6 +620,9 @@ func (sc *SpecScope) call(x *ast.CallExpr) Val {
 			r := n.eval(sf.Body)
 			sc.err = append(sc.err, n.err...)
 			return r
+		}
+		if rt := sc.compositeRet(sf); rt != nil {
+			return c.useCompositeSpecFunc(sf, rt, args, sc)
 		}
 		sym, ret := c.useSpecFunc(sf)
 		if len(args) == 0 {
@@ -976,4 +990,54 @@ func (c *FnCtx) emitAxiomsFor(name string) {
 		c.emit(sx("assert", t))
 		c.trusted["specification axiom "+ax.Name+": "+oneLine(ax.Src)] = true
 	}
+}
+
+// compositeRet returns the Go type of a spec function result that is not a scalar.
+func (sc *SpecScope) compositeRet(sf *SpecFunc) types.Type {
+	switch sf.Ret {
+	case "int", "bool", "string", "byte":
+		return nil
+	}
+	t := sc.lookupType(sf.Ret)
+	if t == nil && strings.HasPrefix(sf.Ret, "[]") {
+		if et := sc.lookupType(sf.Ret[2:]); et != nil {
+			t = types.NewSlice(et)
+		}
+	}
+	if t == nil {
+		return nil
+	}
+	switch t.Underlying().(type) {
+	case *types.Slice, *types.Struct, *types.Array:
+		return t
+	}
+	return nil
+}
+
+// useCompositeSpecFunc applies an uninterpreted spec function with a slice/struct result:
+// one uninterpreted function per scalar component.
+func (c *FnCtx) useCompositeSpecFunc(sf *SpecFunc, rt types.Type, args []string, sc *SpecScope) Val {
+	var sorts []string
+	for _, tn := range sf.PTypes {
+		if s := c.specSort(tn); s != "" {
+			sorts = append(sorts, s)
+		}
+	}
+	v := c.w.proto(rt, "", func(path, sort string) string {
+		sym := "sf_" + sf.Name + path
+		c.declare(sym, sorts, sort)
+		if len(args) == 0 {
+			return sym
+		}
+		return sx(sym, args...)
+	})
+	v.T = rt
+	for _, f := range c.typeFacts(v) {
+		c.fact(f)
+	}
+	if !c.declared["sfc_"+sf.Name] {
+		c.declared["sfc_"+sf.Name] = true
+		c.emitAxiomsFor(sf.Name)
+	}
+	return v
 }
